@@ -1,6 +1,6 @@
 (* C08 property theorems ONLY. *)
 From Coq Require Import ZArith List Bool Reals Lra.
-From RV Require Import Common.Num Common.RealNum C08.Model C08.Proofs C08.ProofsR C08.ProofsDir.
+From RV Require Import Common.Num Common.RealNum C08.Model C08.Proofs C08.ProofsNP C08.ProofsR C08.ProofsDir.
 Import ListNotations.
 
 (* (1) Structural, for EVERY arithmetic (binary64 included), every integrator, every event sequence:
@@ -23,6 +23,61 @@ Theorem C08_status_first_boundary :
   forall j, (steps s < j)%nat /\ (j < steps r)%nat -> hb j = None.
 Proof. intros T N c1 c2 stepper hb tmax exact. exact (loop_first_event N c1 c2 stepper hb tmax exact). Qed.
 Print Assumptions C08_status_first_boundary.
+
+(* (2b) "no particles" as an exit condition, with the particle count part of the history (np k = the simulation still
+   holds particles at the boundary after k steps): the loop stops at the FIRST empty boundary, every boundary it went
+   past held particles, and an empty boundary is reported as NO_PARTICLES whatever else became true there -- the
+   target being reached (SUCCESS) and exit codes raised by the heartbeat included; a positive status is either that,
+   or the heartbeat's code of (2) *)
+Theorem C08_no_particles_first_empty_boundary :
+  forall (T : Type) (N : Num T) (c1em12 c1em200 : T) stepper hb np (tmax : T) exact fuel s r,
+  loop_np N c1em12 c1em200 stepper hb np tmax false exact fuel s = Some r ->
+  (steps s <= steps r)%nat /\
+  (forall j, (steps s <= j)%nat /\ (j < steps r)%nat -> np j = true) /\
+  (np (steps r) = false -> status r = ST_NO_PARTICLES).
+Proof. intros T N c1 c2 stepper hb np tmax exact. exact (loop_np_first_empty N c1 c2 stepper hb np tmax exact). Qed.
+Print Assumptions C08_no_particles_first_empty_boundary.
+Theorem C08_status_names_first_condition :
+  forall (T : Type) (N : Num T) (c1em12 c1em200 : T) stepper hb np (tmax : T) exact fuel s r,
+  events_positive hb -> (status s < 0)%Z ->
+  loop_np N c1em12 c1em200 stepper hb np tmax false exact fuel s = Some r -> (0 < status r)%Z ->
+  (np (steps r) = false /\ status r = ST_NO_PARTICLES) \/
+  (np (steps r) = true /\ hb (steps r) = Some (status r) /\ (steps s < steps r)%nat /\
+   forall j, (steps s < j)%nat /\ (j < steps r)%nat -> hb j = None).
+Proof. intros T N c1 c2 stepper hb np tmax exact. exact (loop_np_status N c1 c2 stepper hb np tmax exact). Qed.
+Print Assumptions C08_status_names_first_condition.
+(* the whole call, integrating to the current time included (no step is taken, the empty simulation is still reported);
+   and the particle-free theorems of this file are about the instance np = (fun _ => true) of the same functions *)
+Theorem C08_integrate_reports_empty :
+  forall (T : Type) (N : Num T) c1 c2 stepper hb np (tmax : T) exact fuel t0 dt0 k r,
+  integrate_np N c1 c2 stepper hb np tmax false exact fuel t0 dt0 k = Some r ->
+  (k <= steps r)%nat /\ (forall j, (k <= j)%nat /\ (j < steps r)%nat -> np j = true) /\
+  (np (steps r) = false -> status r = ST_NO_PARTICLES).
+Proof. intros T N c1 c2 stepper hb np tmax exact fuel t0 dt0 k r. exact (integrate_np_empty_reported N c1 c2 stepper hb np tmax exact fuel t0 dt0 k r). Qed.
+Print Assumptions C08_integrate_reports_empty.
+Theorem C08_np_model_extends_plain :
+  forall (T : Type) (N : Num T) c1 c2 stepper hb np exact fuel, (forall j, np j = true) ->
+  (forall tmax t0 dt0 k, degenerate N tmax t0 dt0 = false ->
+     integrate_np N c1 c2 stepper hb np tmax false exact fuel t0 dt0 k
+     = integrate N c1 c2 stepper hb tmax false exact true fuel t0 dt0 k) /\
+  (forall targets s, nondeg_seq N c1 c2 stepper hb exact fuel targets s ->
+     integrate_seq_np N c1 c2 stepper hb np exact fuel targets s
+     = integrate_seq N c1 c2 stepper hb exact fuel targets s).
+Proof.
+  intros T N c1 c2 stepper hb np exact fuel Hnp. split.
+  - intros tmax t0 dt0 k Hd. exact (integrate_np_all_true N c1 c2 stepper hb np tmax exact fuel t0 dt0 k Hnp Hd).
+  - exact (integrate_seq_np_all_true N c1 c2 stepper hb exact np fuel Hnp).
+Qed.
+(* degenerate arguments (a NaN step, a NaN target, a zero step with target <> current time): integrate() returns at once
+   with an error status, no step taken, time untouched -- it does not run forever (/repo 7f3beee) *)
+Theorem C08_degenerate_arguments_refused :
+  forall (T : Type) (N : Num T) c1 c2 stepper hb np (tmax : T) exact fuel t0 dt0 k,
+  degenerate N tmax t0 dt0 = true ->
+  exists r, integrate_np N c1 c2 stepper hb np tmax false exact fuel t0 dt0 k = Some r /\
+            steps r = k /\ t r = t0 /\ (0 < status r)%Z /\ (np k = true -> status r = ST_GENERIC_ERROR).
+Proof. intros T N c1 c2 stepper hb np tmax exact fuel t0 dt0 k. exact (integrate_np_degenerate N c1 c2 stepper hb np tmax exact fuel t0 dt0 k). Qed.
+Print Assumptions C08_degenerate_arguments_refused.
+Print Assumptions C08_np_model_extends_plain.
 
 Open Scope R_scope.
 (* (3) exact arithmetic, fixed step t += dt: integrating to the current time takes no step and leaves
